@@ -71,6 +71,7 @@ type interp struct {
 	hits   map[string]int64
 
 	tags     []string // cause labels for violation grouping
+	callKinds []byte  // 'f' function, 's' subroutine, 'l' function literal: innermost last
 	loopVars [][]string // names bound by enclosing loop headers, innermost last; nil entries for non-loop blocks
 }
 
@@ -263,6 +264,10 @@ func (in *interp) eval(e expr) val {
 		if b := in.st.lookup(t.name); b != nil {
 			return b.v.deepCopy()
 		}
+		if f, ok := in.funcs[t.name]; ok {
+			in.hit("sem:named-function-as-value")
+			return val{k: kFunc, i: in.regNamed(f)}
+		}
 		return vAbsent
 	case eField:
 		in.needRec()
@@ -285,6 +290,9 @@ func (in *interp) eval(e expr) val {
 		if n.k != kInt {
 			uncon("$[[...]] with a %s index", n.kindName())
 		}
+		if n.i < 0 {
+			uncon("negative positional index (the text says absent/no-op, the implementation aliases from the end)")
+		}
 		if n.i >= 1 && n.i <= int64(len(in.rec.e)) {
 			in.hit("sem:positional-name-read")
 			return vStr(in.rec.e[n.i-1].k)
@@ -296,6 +304,9 @@ func (in *interp) eval(e expr) val {
 		n := in.eval(t.e)
 		if n.k != kInt {
 			uncon("$[[[...]]] with a %s index", n.kindName())
+		}
+		if n.i < 0 {
+			uncon("negative positional index (the text says absent/no-op, the implementation aliases from the end)")
 		}
 		if n.i >= 1 && n.i <= int64(len(in.rec.e)) {
 			in.hit("sem:positional-value-read")
@@ -537,11 +548,28 @@ func cmpStr(a, b string) int {
 
 // ---------------------------------------------------------------- function literals
 
-var funcLitTable []eFuncLit
+type fnRef struct {
+	lit   *eFuncLit
+	named *sFunc
+}
+
+var funcLitTable []fnRef
 
 func (in *interp) regFuncLit(f eFuncLit) int64 {
-	funcLitTable = append(funcLitTable, f)
+	funcLitTable = append(funcLitTable, fnRef{lit: &f})
 	return int64(len(funcLitTable) - 1)
+}
+
+func (in *interp) regNamed(f sFunc) int64 {
+	funcLitTable = append(funcLitTable, fnRef{named: &f})
+	return int64(len(funcLitTable) - 1)
+}
+
+func (in *interp) callRef(r fnRef, args []val) val {
+	if r.named != nil {
+		return in.invoke(r.named.name, r.named.params, r.named.ret, r.named.body, args, true)
+	}
+	return in.invokeLit(*r.lit, args)
 }
 
 // ---------------------------------------------------------------- calls
@@ -563,7 +591,7 @@ func (in *interp) call(c eCall) val {
 		for i, a := range c.args {
 			args[i] = in.eval(a).deepCopy()
 		}
-		return in.invokeLit(fl, args)
+		return in.callRef(fl, args)
 	}
 	args := make([]val, len(c.args))
 	for i, a := range c.args {
@@ -582,7 +610,13 @@ func (in *interp) invoke(name string, params []param, ret string, body []stmt, a
 	}
 	in.pushSet()
 	in.loopVars = append(in.loopVars, nil)
+	if isFunc {
+		in.callKinds = append(in.callKinds, 'f')
+	} else {
+		in.callKinds = append(in.callKinds, 's')
+	}
 	defer func() {
+		in.callKinds = in.callKinds[:len(in.callKinds)-1]
 		in.loopVars = in.loopVars[:len(in.loopVars)-1]
 		in.popSet()
 		in.depth--
@@ -641,7 +675,9 @@ func (in *interp) invokeLit(f eFuncLit, args []val) val {
 	}
 	in.pushFrame()
 	in.loopVars = append(in.loopVars, nil)
+	in.callKinds = append(in.callKinds, 'l')
 	defer func() {
+		in.callKinds = in.callKinds[:len(in.callKinds)-1]
 		in.loopVars = in.loopVars[:len(in.loopVars)-1]
 		in.popFrame()
 		in.depth--
@@ -749,7 +785,7 @@ func (in *interp) callFn(f val, args ...val) val {
 	for i := range args {
 		cp[i] = args[i].deepCopy()
 	}
-	return in.invokeLit(funcLitTable[f.i], cp)
+	return in.callRef(funcLitTable[f.i], cp)
 }
 
 func singlePair(v val, what string) kv {
